@@ -26,6 +26,8 @@ import IvpModel.Proofs.NormLemmas
 import IvpModel.Proofs.BdfGenLemmas
 import IvpModel.Proofs.ReflectRk4
 import IvpModel.Proofs.ReflectRk23
+import IvpModel.Proofs.ReflectHairer
+import IvpModel.Proofs.ReflectDopri5
 
 noncomputable section
 variable {K : Type} [Field K] [LinearOrder K] [IsStrictOrderedRing K] [SqrtPow K]
@@ -100,14 +102,12 @@ theorem c13_reflect_guards (x h xend posneg u : K) :
    dopri5_underflow_reflect h x u, dop853_underflow_reflect h x u, rk23_underflow_reflect h x⟩
 
 /-- the stiffness-detection quotient of DOPRI5 / DOP853 does not depend on the direction of integration -/
-theorem c13_reflect_stiff {n : Nat} (k2 k6 y k1 k3 k4 k5 y1 : Vector K n) (h hl : K) :
+theorem c13_reflect_stiff {n : Nat} (k2 k6 ysti k3 k4 k5 y1 : Vector K n) (h hl : K) :
     (Gen.Dop853.stiff (k4 := vneg k4) (k3 := vneg k3) (k5 := k5) (y1 := y1) (h := -h) (hlamb := hl)).hlamb
       = (Gen.Dop853.stiff (k4 := k4) (k3 := k3) (k5 := k5) (y1 := y1) (h := h) (hlamb := hl)).hlamb ∧
-    (Gen.Dopri5.stiff (k2 := vneg k2) (k6 := vneg k6) (y := y) (h := -h) (k1 := vneg k1) (k3 := vneg k3) (k4 := vneg k4)
-        (k5 := vneg k5) (y1 := y1) (hlamb := hl)).hlamb
-      = (Gen.Dopri5.stiff (k2 := k2) (k6 := k6) (y := y) (h := h) (k1 := k1) (k3 := k3) (k4 := k4) (k5 := k5) (y1 := y1)
-        (hlamb := hl)).hlamb :=
-  ⟨dop853_stiff_reflect k4 k3 k5 y1 h hl, dopri5_stiff_reflect k2 k6 y k1 k3 k4 k5 y1 h hl⟩
+    (Gen.Dopri5.stiff (k2 := vneg k2) (k6 := vneg k6) (y1 := y1) (ysti := ysti) (h := -h) (hlamb := hl)).hlamb
+      = (Gen.Dopri5.stiff (k2 := k2) (k6 := k6) (y1 := y1) (ysti := ysti) (h := h) (hlamb := hl)).hlamb :=
+  ⟨dop853_stiff_reflect k4 k3 k5 y1 h hl, dopri5_stiff_reflect k2 k6 y1 ysti h hl⟩
 
 theorem c13_reflect_norm {n : Nat} (atol rtol y y1 e : Vector K n) :
     Gen.Dopri5.errnorm (atol := atol) (rtol := rtol) (y := y) (y1 := y1) (k4 := vneg e)
@@ -155,6 +155,28 @@ theorem c13_reflect_rk23_whole_run {σ : Type} {n : Nat} (P : Ctl.R23Params K n)
     Ctl.rk23Solve (Ctl.rP23 P) (Ctl.rRhs f) (Ctl.rObs ob) obs0 (-x0) y0 firstStep hmaxArg fuel
       = (Ctl.rk23Solve P f ob obs0 x0 y0 firstStep hmaxArg fuel).map Ctl.rResult :=
   Ctl.rk23Solve_reflect P f ob obs0 x0 y0 firstStep hmaxArg hp fuel
+
+/-- **Whole runs of the DOPRI5 / DOP853 skeleton under time reflection**, for every numeric kernel, controller and first-step
+    routine that obey the mirror laws (`Ctl.KRefl`, `Ctl.PRefl`, `Ctl.HinitRefl`): guards, landing, rejection, step-size control,
+    stiffness counters, observer replies and step budget of `Model/Hairer.lean` (tied to dopri5.rs / dop853.rs by X-solve). -/
+theorem c13_reflect_hairer_whole_run {σ : Type} {n : Nat} (P : Ctl.HParams K n) (hP : Ctl.PRefl P) (Kn : Ctl.HKernel K n)
+    (KR : Ctl.KRefl Kn) (f : Ctl.Rhs K n) (ob : Ctl.Obs σ K n) (obs0 : σ) (x0 : K) (y0 : Ctl.Vec K n) (firstStep : Option K)
+    (hinit hinit' : Ctl.Rhs K n → Ctl.Vec K n → K × Array (K × Ctl.Vec K n)) (hH : Ctl.HinitRefl hinit hinit') (fo hl : K) (fuel : Nat) :
+    Ctl.hSolve (Ctl.rHP P) Kn (Ctl.rRhs f) (Ctl.rObs ob) obs0 (-x0) y0 firstStep hinit' fo hl fuel
+      = (Ctl.hSolve P Kn f ob obs0 x0 y0 firstStep hinit fo hl fuel).map Ctl.rResult :=
+  Ctl.hSolve_reflect P hP Kn KR f ob obs0 x0 y0 firstStep hinit hinit' hH fo hl fuel
+
+/-- **Whole runs of DOPRI5 under time reflection**: the translated regions of dopri5.rs obey the mirror laws, so the run of the
+    mirrored problem (mirrored right-hand side and observer, `-x0`, `-xend`, opposite direction) is the mirror image of the run. -/
+theorem c13_reflect_dopri5_whole_run {σ : Type} {n : Nat} (L : Ctl.HLits K) (xend posneg uround safety scaleMin scaleMax beta hmax : K)
+    (nmax nstiff : Nat) (dense : Bool) (atol rtol : Ctl.Vec K n) (f : Ctl.Rhs K n) (ob : Ctl.Obs σ K n) (obs0 : σ) (x0 : K)
+    (y0 : Ctl.Vec K n) (firstStep : Option K) (hmaxArg : K) (iord : Nat) (fo hl : K) (hp : posneg ≠ 0) (fuel : Nat) :
+    Ctl.hSolve (Ctl.dopri5Params L (-xend) (-posneg) uround safety scaleMin scaleMax beta hmax nmax nstiff dense) (Ctl.dopri5Kernel atol rtol)
+        (Ctl.rRhs f) (Ctl.rObs ob) obs0 (-x0) y0 firstStep (Ctl.hinitCall atol rtol (-x0) y0 (-posneg) hmaxArg iord) fo hl fuel
+      = (Ctl.hSolve (Ctl.dopri5Params L xend posneg uround safety scaleMin scaleMax beta hmax nmax nstiff dense) (Ctl.dopri5Kernel atol rtol)
+        f ob obs0 x0 y0 firstStep (Ctl.hinitCall atol rtol x0 y0 posneg hmaxArg iord) fo hl fuel).map Ctl.rResult :=
+  Ctl.dopri5Solve_reflect L xend posneg uround safety scaleMin scaleMax beta hmax nmax nstiff dense atol rtol f ob obs0 x0 y0 firstStep
+    hmaxArg iord fo hl hp fuel
 
 /-- BDF's norm (translated from bdf.rs) is invariant under a common scaling of values and scales, whatever their size -/
 theorem c13_scale_bdf_norm {n : Nat} (c : K) (hc : c ≠ 0) (values scale : Vector K n) (hnz : ∀ i : Fin n, scale[i] ≠ 0) :
